@@ -296,6 +296,46 @@ func main() {
 	}
 	ngrid := len(polys)
 	polys = append(polys, families()...)
+	// the same polygons very small, very large and far from the origin (every 9th polygon, three placements)
+	base := len(polys)
+	for i := 0; i < base; i += 9 {
+		for _, tf := range []struct {
+			name string
+			k    float64
+			off  v2.Vec
+		}{{"scaled by 1e-3", 1e-3, v2.Vec{}}, {"scaled by 1e-5", 1e-5, v2.Vec{}}, {"scaled by 4096", 4096, v2.Vec{}}, {"moved to (10000.5,-3000)", 1, v2.Vec{X: 10000.5, Y: -3000}}} {
+			vs := make([]v2.Vec, len(polys[i].v))
+			for k, p := range polys[i].v {
+				vs[k] = p.MulScalar(tf.k).Add(tf.off)
+			}
+			polys = append(polys, poly{polys[i].name + " " + tf.name, vs, "placed-" + polys[i].fam})
+		}
+	}
+	// polygons with a nearly repeated vertex: an extra vertex 5e-10 away from an existing one (a tiny edge that is
+	// neither horizontal nor vertical), at every vertex position of every 11th polygon
+	for i := 0; i < base; i += 11 {
+		for k := range polys[i].v {
+			vs := append([]v2.Vec{}, polys[i].v[:k+1]...)
+			nx := polys[i].v[(k+1)%len(polys[i].v)]
+			dir := nx.Sub(polys[i].v[k]).Normalize()
+			vs = append(vs, polys[i].v[k].Add(dir.MulScalar(5e-10)))
+			vs = append(vs, polys[i].v[k+1:]...)
+			if simple(vs) {
+				polys = append(polys, poly{fmt.Sprintf("%s with vertex %d nearly repeated", polys[i].name, k), vs, "near-duplicate-vertex-" + polys[i].fam})
+			}
+		}
+	}
+	// polygons with very large coordinates (2^21 and 2^31 times a family polygon): clipping tolerances must scale
+	for i := ngrid; i < base; i += 5 {
+		for _, k := range []float64{1 << 21, 1 << 31} {
+			vs := make([]v2.Vec, len(polys[i].v))
+			ct := bbc(polys[i].v)
+			for j, q := range polys[i].v {
+				vs[j] = q.Sub(ct).MulScalar(k)
+			}
+			polys = append(polys, poly{fmt.Sprintf("%s centred, scaled by %g", polys[i].name, k), vs, "huge-" + polys[i].fam})
+		}
+	}
 	var pts, depth3, nontrivial int64
 	classes := vlib.NewCounter()
 	done := c.ParFor(len(polys), func(i int) {
@@ -331,8 +371,12 @@ func main() {
 			ys[y] = true
 		}
 		splitX, splitY := map[float64]bool{}, map[float64]bool{}
+		var corners []v2.Vec
 		if m, ok := fast.(*sdf.MeshSDF2); ok {
 			bs := m.Boxes()
+			for _, b := range bs {
+				corners = append(corners, b.Min, b.Max, v2.Vec{X: b.Min.X, Y: b.Max.Y}, v2.Vec{X: b.Max.X, Y: b.Min.Y})
+			}
 			if len(bs) > 21 {
 				atomic.AddInt64(&depth3, 1)
 			}
@@ -390,6 +434,33 @@ func main() {
 								return "query-within-1e-9-of-a-split-line-that-is-within-1e-9-of-a-vertex-level"
 							}
 						}
+					}
+					// an edge shorter than the library's clipping tolerance (1e-9), query level with it: see the known finding
+					for i := range pl.v {
+						a, b := pl.v[i], pl.v[(i+1)%len(pl.v)]
+						if b.Sub(a).Length() <= 1e-9 && y >= math.Min(a.Y, b.Y)-4e-16*(1+math.Abs(y)) && y <= math.Max(a.Y, b.Y)+4e-16*(1+math.Abs(y)) {
+							return "query-level-with-an-edge-shorter-than-the-clipping-tolerance"
+						}
+					}
+					// an edge that passes (not at one of its end points) through a corner of the quadtree subdivision,
+					// and the query exactly level with that corner (within 2 ulp): see the known finding
+					for _, cn := range corners {
+						if math.Abs(cn.Y-y) > 4*(math.Nextafter(math.Abs(y), math.Inf(1))-math.Abs(y)) || cn.X < x {
+							continue
+						}
+						for i := range pl.v {
+							a, b := pl.v[i], pl.v[(i+1)%len(pl.v)]
+							if a.Sub(cn).Length() <= 1e-12*(1+size) || b.Sub(cn).Length() <= 1e-12*(1+size) {
+								continue
+							}
+							ab := b.Sub(a)
+							t := cn.Sub(a).Dot(ab) / ab.Length2()
+							if t > 0 && t < 1 && a.Add(ab.MulScalar(t)).Sub(cn).Length() <= 1e-12*(1+size) {
+								return "query-level-with-a-subdivision-corner-that-an-edge-passes-through"
+							}
+						}
+					}
+					if near <= 1e-9*(1+size) {
 						return "query-on-or-within-1ulp-of-a-split-line"
 					}
 					for l := range levels {
